@@ -967,6 +967,7 @@ DLLIMPORT cfg_value_t *cfg_setopt(cfg_t *cfg, cfg_opt_t *opt, const char *value)
 				return NULL;
 		} else {
 			int radix;
+			int valid = 1;
 			const char *int_str;
 			if (!value) {
 				errno = EINVAL;
@@ -990,9 +991,29 @@ DLLIMPORT cfg_value_t *cfg_setopt(cfg_t *cfg, cfg_opt_t *opt, const char *value)
 						int_str = &value[1];
 				}
 			}
+			if (radix != 0) {
+				/* after a radix prefix only digits of that radix may follow, at least one for 0x and 0b */
+				const char *ch;
+
+				for (ch = int_str; *ch; ch++) {
+					int digit = radix;
+
+					if (isdigit((unsigned char)*ch))
+						digit = *ch - '0';
+					else if (isxdigit((unsigned char)*ch))
+						digit = tolower((unsigned char)*ch) - 'a' + 10;
+					if (digit >= radix)
+						break;
+				}
+				if (*ch || (ch == int_str && radix != 8))
+					valid = 0;
+			} else if (!*int_str || isspace((unsigned char)*int_str)) {
+				/* strtol() would skip leading white space and convert nothing to 0 */
+				valid = 0;
+			}
 			errno = 0;
 			i = strtol(int_str, &endptr, radix);
-			if (*endptr != '\0') {
+			if (!valid || *endptr != '\0') {
 				cfg_error(cfg, _("invalid integer value for option '%s'"), opt->name);
 				return NULL;
 			}
@@ -1015,7 +1036,7 @@ DLLIMPORT cfg_value_t *cfg_setopt(cfg_t *cfg, cfg_opt_t *opt, const char *value)
 			}
 			errno = 0;
 			f = strtod(value, &endptr);
-			if (*endptr != '\0') {
+			if (*endptr != '\0' || endptr == value || isspace((unsigned char)*value)) {
 				cfg_error(cfg, _("invalid floating point value for option '%s'"), opt->name);
 				return NULL;
 			}
